@@ -79,6 +79,11 @@ def ordering(ctx, oa, ob, o2):
                     [nid for nid in live if any(call_attr(cl) == 'add_asset' for cl in calls_at(g, g.nodes[nid]))]
         o2.count()
         if not reg_calls:
+            # transitory by design (is_transitory=True reaches Asset.__init__) -- or a constructor chain that never runs Asset.__init__ at all
+            reaches_base = c is asset or any(g.nodes[nid].kind == 'call_enter' and g.nodes[nid].frame.defcls is asset and g.nodes[nid].frame.func.name == '__init__' for nid in live)
+            if not reaches_base:
+                o2.fail(P, f'{c.name}.__init__', 'super().__init__(...)', f'the constructor chain of {c.name} never runs Asset.__init__: the asset gets no id, is not registered with the System '
+                        'and is never initialised', file=c.mod.path, line=c.node.lineno)
             transitory.append(c.name)
             continue
         registered.append(c.name)
@@ -676,6 +681,8 @@ def check(ctx):
     ob = Ob('C20.1b', 'K11', 'no field written by the initialize() chain is written again by the constructor after registration (identical constants excepted)')
     o2 = Ob('C20.2', 'K2', 'Asset.__init__ registers iff not transitory; every constructor path of a non-transitory class registers; Part and Batch are transitory')
     ordering(ctx, oa, ob, o2)
+    from .. import devices as dv
+    dv.check_defaults(ctx, o2, [('Asset', '__init__', 'is_transitory')])
     o3 = Ob('C20.3', 'K2', 'add_asset: raise without an active system; append only if absent; initialise immediately, with the active environment, iff the simulation is initialised')
     add_asset(ctx, o3)
     o4 = Ob('C20.4', 'K2+K3', 'simulate: raise first unless active; initialise resource manager and all assets exactly when not yet initialised, then set the flag; always reach env.run; run never resets')
